@@ -112,8 +112,10 @@ def case(ctx, i):
     fnames = sorted(x.name for x in prog.exported_functions() if x.name not in renames)
     vnames = sorted(x.name for x in prog.exported_variables() if x.name not in renames)
     nt_b = False
-    for label, names, keepopt, dropopt, secs in (("fn", fnames, "--keep-fn", "--drop-fn", ("fn-removed",)),
-                                                 ("var", vnames, "--keep-var", "--drop-var", ("var-removed",))):
+    # an interface that the patterns drop must not be compared at any level: neither as a declaration nor
+    # as a bare ELF symbol ("... symbol not referenced by debug info")
+    for label, names, keepopt, dropopt, secs in (("fn", fnames, "--keep-fn", "--drop-fn", ("fn-removed", "fsym-removed")),
+                                                 ("var", vnames, "--keep-var", "--drop-var", ("var-removed", "vsym-removed"))):
         if len(names) < 2:
             continue
         pats = []
